@@ -27,7 +27,8 @@ WAVE 6 (corners of the public surface; `docs/C13_api.md`):
   hint <at> <nm> <em> => none | panic | <c> <lo> <hi|inf>
                                             `size_hint()` of a fresh iterator after `c = min(at, #items)` calls of
                                             `next()`; judged by `judgeHint` (lo ≤ remaining ≤ hi, remaining =
-                                            |subIsoAll P| − c), mirrored by `sizeHintModel`
+                                            |subIsoAll P| − c), mirrored by `sizeHintModel` (of the
+                                            TARGET's node count: D34 repaired, a69e23d; `panic` is a violation)
   bhint <nm> <em>     => none | panic | 0 <lo> <hi|inf>     the same on a pair too big to enumerate (`judgeHintBig`)
   biso|bsub [<nm> <em>] => true|false       pairs too big to enumerate: judged by the PROVED mirror model
                                             (`C13_checked_model_eq_oracle`: whenever the run-time checks pass and the
@@ -163,49 +164,42 @@ def judgePrefix (P : Problem) (l : List (List Nat)) : Bool :=
     && embedsB P (mapOf P.g0.nodes v))
   && decide l.Nodup
 
-/-- the finding D34 (open): `size_hint` of the iterator of `subgraph_isomorphisms_iter` -/
-def d34 (what : String) : String :=
-  s!"KNOWN D34 size_hint of the iterator returned by subgraph_isomorphisms_iter: {what}"
-
-/-- verdict on `hint <at> …` (small pair: the oracle enumerates) -/
-def hintVerdict (all : Nat) (n0 : Nat) (early : Bool) (at_ : Nat) (impl : String) : String :=
-  let model := sizeHintModel n0
+/-- verdict on `hint <at> …` (small pair: the oracle enumerates); `n1` = node count of the TARGET (finding D34,
+repaired by a69e23d: a too small upper bound or a panic is a violation) -/
+def hintVerdict (all : Nat) (n1 : Nat) (early : Bool) (at_ : Nat) (impl : String) : String :=
+  let model := sizeHintModel n1
   let c := min at_ all
   let modelText := if early then "none" else match model with | none => "panic" | some _ => s!"{c} {showHint model}"
   match splitWords impl with
   | ["none"] =>
     if all != 0 then s!"SPECFAIL subgraph_isomorphisms_iter returned None, {all} embeddings exist" else cmpExact modelText impl
-  | ["panic"] =>
-    if !early && model.isNone then d34 s!"panics for a pattern with {n0} nodes (upper_bounds[21] is out of bounds)"
-    else "SPECFAIL size_hint (or a next() before it) panicked"
+  | ["panic"] => "SPECFAIL size_hint (or a next() before it) panicked"
   | ci :: rest =>
     match ci.toNat?, parseHint rest with
     | some ci, some (lo, hi) =>
       if ci != c then
         s!"SPECFAIL the iterator yielded {ci} items in {at_} calls of next(), {all} embeddings exist"
       else if judgeHintN all ci lo hi then cmpExact modelText impl
-      else if some (lo, hi) == model && decide (lo ≤ all - ci) then
-        d34 s!"({showHint (some (lo, hi))}) after {ci} items, but {all - ci} more mappings are yielded: the upper bound is n0! = {n0}! although up to n1!/(n1-n0)! mappings exist"
       else s!"SPECFAIL size_hint = ({showHint (some (lo, hi))}) after {ci} of {all} items: {all - ci} items remain"
     | _, _ => s!"SPECFAIL malformed answer {impl}"
   | _ => s!"SPECFAIL malformed answer {impl}"
 
-/-- verdict on `bhint …` (pair too big to enumerate) -/
+/-- verdict on `bhint …` (pair too big to enumerate): `size_hint` is taken before any search, so the only upper
+bounds it can justify are those that hold for every pair of these sizes (`judgeHintBig`: at least the number of
+injections; the model's answer passes it: `C13_size_hint`) -/
 def bhintVerdict (n0 n1 : Nat) (early : Bool) (impl : String) : String :=
-  let model := sizeHintModel n0
+  let model := sizeHintModel n1
   let modelText := if early then "none" else match model with | none => "panic" | some _ => s!"0 {showHint model}"
   match splitWords impl with
   | ["none"] => cmpExact modelText impl
-  | ["panic"] =>
-    if !early && model.isNone then d34 s!"panics for a pattern with {n0} nodes (upper_bounds[21] is out of bounds)"
-    else "SPECFAIL size_hint panicked"
+  | ["panic"] => "SPECFAIL size_hint panicked"
   | ["0", los, his] =>
     match parseHint [los, his] with
     | some (lo, hi) =>
       if early then s!"SPECFAIL an iterator although the pattern has more nodes or edges than the target"
       else if judgeHintBig n0 n1 lo hi then cmpExact modelText impl
-      else if some (lo, hi) == model then
-        d34 s!"({showHint (some (lo, hi))}): the upper bound n0! = {n0}! is below the number n1!/(n1-n0)! of injections of {n0} into {n1} nodes"
+      else if lo == 0 then
+        s!"SPECFAIL size_hint = ({showHint (some (lo, hi))}) before any search: the upper bound is below the number n1!/(n1-n0)! of injections of {n0} into {n1} nodes"
       else cmpExact modelText impl
     | none => s!"SPECFAIL malformed answer {impl}"
   | _ => s!"SPECFAIL malformed answer {impl}"
@@ -316,7 +310,7 @@ def step (d : DState) (req : List String) (impl : String) : DState × String :=
         -- the number of embeddings: `(subIsoAll (problem d nm em)).length`, from the `iter` line of the same
         -- round and predicates if there was one
         let all := if d.lastPreds == rest then d.lastAll else (subIsoAll (problem d nm em)).length
-        (d, hintVerdict all m.g0.n (m.g0.n > m.g1.n || m.g0.ecount > m.g1.ecount) at_ impl)
+        (d, hintVerdict all m.g1.n (m.g0.n > m.g1.n || m.g0.ecount > m.g1.ecount) at_ impl)
     | _, _ => (d, s!"SPECFAIL bad request {req}")
   | "biter" :: k :: rest =>
     if !(d.ok0 && d.ok1) then (d, "SPECFAIL query without a valid graph pair") else
